@@ -37,7 +37,14 @@ Fixpoint spec_node (dirs : list str) (n : node) : list (list str * fn_def) :=
 Definition spec_nodes (dirs : list str) (l : layout) := flat_map (spec_node dirs) l.
 (* every (file components, function) that must get exactly one wrapper *)
 Definition annotated_spec (l : layout) : list (list str * fn_def) := spec_nodes [] l.
-Definition spec_obs (pf : list str * fn_def) : str * str := (fn_name (snd pf), promise_of (snd pf)).
+(* the Rust name of a function declared with a raw identifier (fn r#type) is the identifier
+   without the r# marker (type) *)
+Definition rust_name (ident : str) : str :=
+  match ident with
+  | a :: b :: rest => if Ascii.eqb a "r" && Ascii.eqb b "#" then rest else ident
+  | _ => ident
+  end.
+Definition spec_obs (pf : list str * fn_def) : str * str := (rust_name (fn_name (snd pf)), promise_of (snd pf)).
 
 (* the same on the list of walked files; C03Proofs.spec_walk shows the two agree *)
 Definition spec_accept (comps : list str) : bool :=
